@@ -470,3 +470,178 @@ func wholeValueHasher(p *packages.Package, fn *types.Func) bool {
 	}
 	return false
 }
+
+// strippedEndsAreAPair: C05.R8 — a value that is passed through as written is validated on what is BETWEEN its
+// delimiters; that only means something if the delimiter removed at the front and the one removed at the back belong
+// together: url(" with "), ' with '. (a) Where the ends come from tables, the suffix tested or cut is taken from the
+// same row as the prefix — the same range variable (w.prefix / w.suffix) or the same index (prefixes[i] / suffixes[i]);
+// two separate loops accept url("x) — an opening quote that nothing closes. (b) Where one character is sliced off each
+// end (x[1:len(x)-1]), the two characters are established to be the same: compared with each other, or each tested
+// against the same constant. Otherwise `url("a')` passes, and the unterminated string swallows the rest of the rule.
+func strippedEndsAreAPair(c *Ctx, rule string) {
+	p := c.pkg("safehtml")
+	info := p.TypesInfo
+	n := 0
+	for _, fd := range allFuncDecls(p) {
+		if fd.Body == nil {
+			continue
+		}
+		rangeKey := map[types.Object]types.Object{}
+		ast.Inspect(fd.Body, func(x ast.Node) bool {
+			if rs, ok := x.(*ast.RangeStmt); ok {
+				if k, ok := rs.Key.(*ast.Ident); ok {
+					if v, ok := rs.Value.(*ast.Ident); ok {
+						rangeKey[info.ObjectOf(v)] = info.ObjectOf(k)
+					}
+				}
+			}
+			return true
+		})
+		// the row an end expression is taken from: the range variable of w.field, or the index variable of T[i] / of
+		// the range whose value it is
+		rowOf := func(e ast.Expr) types.Object {
+			switch v := ast.Unparen(e).(type) {
+			case *ast.SelectorExpr:
+				if id, ok := ast.Unparen(v.X).(*ast.Ident); ok {
+					return info.ObjectOf(id)
+				}
+			case *ast.IndexExpr:
+				if id, ok := ast.Unparen(v.Index).(*ast.Ident); ok {
+					return info.ObjectOf(id)
+				}
+			case *ast.Ident:
+				if k := rangeKey[info.ObjectOf(v)]; k != nil {
+					return k
+				}
+				return info.ObjectOf(v)
+			}
+			return nil
+		}
+		type endUse struct {
+			e   ast.Expr
+			pos token.Pos
+		}
+		var pre, suf []endUse
+		constEnds := map[string]map[string]bool{} // subject text → constant → "P"/"S" seen
+		ast.Inspect(fd.Body, func(x ast.Node) bool {
+			call, ok := x.(*ast.CallExpr)
+			if !ok || len(call.Args) != 2 {
+				return true
+			}
+			fn := calleeOf(info, call)
+			if fn == nil || fn.Pkg() == nil || fn.Pkg().Path() != "strings" {
+				return true
+			}
+			kind := ""
+			switch fn.Name() {
+			case "HasPrefix", "TrimPrefix", "CutPrefix":
+				kind = "P"
+			case "HasSuffix", "TrimSuffix", "CutSuffix":
+				kind = "S"
+			default:
+				return true
+			}
+			if cs, isConst := constString(info, call.Args[1]); isConst {
+				subj := types.ExprString(call.Args[0])
+				if constEnds[subj] == nil {
+					constEnds[subj] = map[string]bool{}
+				}
+				constEnds[subj][kind+cs] = true
+				return true
+			}
+			if kind == "P" {
+				pre = append(pre, endUse{call.Args[1], call.Pos()})
+			} else {
+				suf = append(suf, endUse{call.Args[1], call.Pos()})
+			}
+			return true
+		})
+		if len(pre) > 0 && len(suf) > 0 {
+			n++
+			bad := ""
+			for _, s := range suf {
+				paired := false
+				for _, pr := range pre {
+					if a, b := rowOf(s.e), rowOf(pr.e); a != nil && a == b {
+						paired = true
+					}
+				}
+				if !paired && bad == "" {
+					bad = fmt.Sprintf("the suffix %s at %s is not taken from the same row as any prefix that is tested", types.ExprString(s.e), c.pos(s.pos))
+				}
+			}
+			c.check(bad == "", rule, funcKey(p, fd)+"|table-ends-from-one-row", c.pos(fd.Pos()), "every suffix tested or cut is taken from the row of a tested prefix",
+				fmt.Sprintf("%s: %s — an opening delimiter can then be accepted with a closing delimiter of another form (url(\"x) is taken for url(…) with the argument \"x): the value is passed through as written, and its unterminated string swallows the `;` and everything after it", fd.Name.Name, bad))
+		}
+		// (b) one character sliced off each end
+		ord := 0
+		ast.Inspect(fd.Body, func(x ast.Node) bool {
+			sl, ok := x.(*ast.SliceExpr)
+			if !ok || sl.Low == nil || sl.High == nil {
+				return true
+			}
+			lo, isC := constInt(info, sl.Low)
+			if !isC || lo != 1 {
+				return true
+			}
+			hb, ok := ast.Unparen(sl.High).(*ast.BinaryExpr)
+			if !ok || hb.Op != token.SUB {
+				return true
+			}
+			if k, isK := constInt(info, hb.Y); !isK || k != 1 {
+				return true
+			}
+			subj := types.ExprString(sl.X)
+			ord++
+			n++
+			same := false
+			// each end tested against the same constant
+			for k := range constEnds[subj] {
+				if strings.HasPrefix(k, "P") && constEnds[subj]["S"+k[1:]] {
+					same = true
+				}
+			}
+			// … or the back tested against the front itself: HasSuffix(x, x[:1])
+			for _, su := range suf {
+				switch v := ast.Unparen(su.e).(type) {
+				case *ast.SliceExpr:
+					if types.ExprString(v.X) == subj && v.High != nil {
+						if hi, ok := constInt(info, v.High); ok && hi == 1 {
+							if v.Low == nil {
+								same = true
+							} else if lo, ok := constInt(info, v.Low); ok && lo == 0 {
+								same = true
+							}
+						}
+					}
+				case *ast.CallExpr:
+					if len(v.Args) == 1 {
+						if ix, ok := ast.Unparen(v.Args[0]).(*ast.IndexExpr); ok && types.ExprString(ix.X) == subj {
+							if k, ok := constInt(info, ix.Index); ok && k == 0 {
+								same = true
+							}
+						}
+					}
+				}
+			}
+			// … or the two end characters compared with each other
+			ast.Inspect(fd.Body, func(y ast.Node) bool {
+				be, ok := y.(*ast.BinaryExpr)
+				if !ok || be.Op != token.EQL {
+					return true
+				}
+				ix, ok1 := ast.Unparen(be.X).(*ast.IndexExpr)
+				iy, ok2 := ast.Unparen(be.Y).(*ast.IndexExpr)
+				if ok1 && ok2 && types.ExprString(ix.X) == subj && types.ExprString(iy.X) == subj && types.ExprString(ix.Index) != types.ExprString(iy.Index) {
+					same = true
+				}
+				return true
+			})
+			c.check(same, rule, fmt.Sprintf("%s|ends-sliced-off#%d|same-character", funcKey(p, fd), ord), c.pos(sl.Pos()), "the two characters sliced off are established to be the same",
+				fmt.Sprintf("%s slices one character off each end of %s without establishing that the two are the same character (each is only tested to be some quote): `url(\"a')` is taken for a quoted argument a, passed through as written, and its unterminated string swallows the rest of the declaration and the rule", fd.Name.Name, subj))
+			return true
+		})
+	}
+	c.count("end-stripping_sites", n)
+	c.floor(rule, 1)
+}
